@@ -359,22 +359,27 @@ def check_exchange(S, rec, rng):
         wire = body
     # the version the *client* speaks (the handler's own protocol_version is drawn below): a chunked response is
     # only intelligible to an HTTP/1.1 client
+    expect = rng.random() < 0.12
+    if expect:
+        # the client waits for an interim response before it sends the body
+        hdrs.insert(rng.randrange(1, len(hdrs) + 1), ("Expect", rng.choice(["100-continue", "100-Continue", " 100-continue "])))
+        rec.observe("requests_with_expect_100_continue")
     req_version = rng.choice(["HTTP/1.1", "HTTP/1.1", "HTTP/1.1", "HTTP/1.0"])
     rec.observe("request_version:" + req_version)
     raw = f"{method} {line} {req_version}\r\n".encode("latin1") + b"".join(f"{k}: {v}\r\n".encode() for k, v in hdrs) + b"\r\n" + wire
     pattern = [rng.choice([1, 2, 5, 100, "line", "all", "into"]) for _ in range(3)]
-    status = rng.choice(["200 OK", "201 Created", "204 No Content", "304 Not Modified", "404 Not Found", "500 Oops", "299 Custom", "100 Continue", "206 Partial Content"])
+    status = rng.choice(["200 OK", "201 Created", "204 No Content", "304 Not Modified", "404 Not Found", "500 Oops", "299 Custom", "100 Continue", "206 Partial Content", "200", "404", "204"])
     with_cl = rng.random() < 0.5
     chunks = [bytes(rng.choice(b"xyz\r\n") for _ in range(rng.randint(0, 4))) for _ in range(rng.randint(0, 4))]
     use_write = rng.random() < 0.2
     version = rng.choice(["HTTP/1.0", "HTTP/1.1"])
     seen = {}
 
-    plan = rng.choice(["normal"] * 6 + ["restart_with_length", "raise_before_body", "restart_without_length", "empty_headers", "empty_headers", "raise_mid_body", "raise_mid_body", "unencodable_header"])
+    plan = rng.choice(["normal"] * 6 + ["restart_with_length", "raise_before_body", "restart_without_length", "empty_headers", "empty_headers", "raise_mid_body", "raise_mid_body", "unencodable_header", "restart_after_first_byte"])
     mid_empty = plan == "raise_mid_body" and rng.random() < 0.5  # ... with an empty response header list
     if plan == "empty_headers" or mid_empty:
         with_cl = False
-    if plan == "raise_mid_body":
+    if plan in ("raise_mid_body", "restart_after_first_byte"):
         use_write = False
         chunks = [c for c in chunks if c] or [b"xyz"]
 
@@ -442,6 +447,19 @@ def check_exchange(S, rec, rng):
                 raise ZeroDivisionError("application failed in the middle of the body")
 
             return failing()
+        if plan == "restart_after_first_byte":
+            # fault: the application tries to replace status and headers (exc_info) after body bytes went out; PEP 3333
+            # has start_response re-raise the exception then - nothing of the second response may reach the client
+            w = start_response(status, h)
+            w(chunks[0])
+            try:
+                raise ZeroDivisionError("failure after the first byte")
+            except ZeroDivisionError:
+                import sys as _sys
+
+                start_response("500 Late", [("X-App", "late")], _sys.exc_info())
+            seen["late_restart_accepted"] = True
+            return [b"AFTER-THE-RESTART"]
         if plan == "restart_with_length":
             # headers announced first without a length, then replaced (exc_info) before anything was written
             start_response("500 Early", [("X-App", "0")])
@@ -492,6 +510,21 @@ def check_exchange(S, rec, rng):
         rec.note(f"exchange harness error {type(e).__name__}: {e}")
         return
     contracts.LOG.take()
+    interim = b"HTTP/1.1 100 Continue\r\n\r\n"
+    if expect:
+        case["expect"] = True
+        if not out.startswith(interim):
+            rec.violation("C19/no-interim-response-for-expect-100-continue", f"the client asked for 100 Continue and received {out[:80]!r}; {case}", case, monitor="wire-parser")
+            return
+        out = out[len(interim):]
+        if out.startswith(interim):
+            # http.server answers the expectation itself when both sides speak HTTP/1.1, werkzeug does it again: two
+            # interim responses are legal (a client must be prepared for any number of 1xx responses)
+            rec.observe("interim_response_sent_twice")
+            out = out[len(interim):]
+    if out.startswith(interim + b"HTTP/1.") and not expect:
+        rec.violation("C19/interim-response-nobody-asked-for", f"{out[:80]!r}; {case}", case, monitor="wire-parser")
+        return
     if "env" not in seen:
         rec.violation("C19/application-not-called", f"response {out[:200]!r}; {case}", case, monitor="request-side")
         return
@@ -547,7 +580,11 @@ def check_exchange(S, rec, rng):
     cl0 = [v for k, v in resp["headers"] if k.lower() == "content-length"]
     if te0 and cl0:
         return rbad("C19/content-length-and-chunked-framing-together", f"{resp['headers']!r}")
-    if plan == "raise_mid_body":
+    if plan == "restart_after_first_byte":
+        rec.observe("restarts_after_the_first_byte")
+        if seen.get("late_restart_accepted") or b"500 Late" in out or b"AFTER-THE-RESTART" in out or any(v == "late" for k, v in resp["headers"]):
+            return rbad("C19/response-restarted-after-bytes-were-sent", f"start_response(exc_info) after the first body byte was accepted; the client received {out[:300]!r}")
+    if plan in ("raise_mid_body", "restart_after_first_byte"):
         # what reached the client must not pass for a complete response with another body than the application produced
         rec.observe("application_failed_mid_body")
         code = int(status[:3])
